@@ -248,6 +248,13 @@ def weave_fn(it, ctx, meta, modpath, in_trait_decl=False):
     btxt = text_of(body)
     if not (ent and ent.raw):
         btxt = rules.apply_body_rules(btxt, it, ctx, key, header_text=htxt)
+    if ent:
+        for rx, rep in ent.rewrites:
+            new, n = re.subn(rx, rep, btxt)
+            if n == 0:
+                raise GenError("lost anchor: @rewrite /%s/ does not match in %s" % (rx, key))
+            ctx.log.append({"rule": "R20", "file": ctx.cur_file, "line": it.line, "fn": key, "what": "%d x /%s/ -> %s" % (n, rx, rep)})
+            btxt = new
     # loops: insert invariants (from last to first so indices stay valid); ordinals refer to the rewritten body
     if ent and ent.loops:
         body = lex(btxt)
